@@ -146,7 +146,12 @@ async def subscription_case(ctx, prefixes: tuple[str, str]) -> None:
         try:
             await transport.connect()
         except Exception as exc:  # noqa: BLE001
-            ctx.violation("reconnect-failed", f"connect #{session} raised {type(exc).__name__}", case)
+            from aiomysensors.exceptions import TransportError
+
+            if isinstance(exc, TransportError):
+                ctx.obs("reconnect-refused-loudly")
+            else:
+                ctx.violation("reconnect-failed", f"connect #{session} raised {type(exc).__name__}", case)
             return
         ctx.clause("subscriptions-after-reconnect")
         for cmd in range(5):
@@ -449,7 +454,7 @@ def run(ctx) -> None:
                 payload = payloads[count % len(payloads)]
                 arun(mapping_case(ctx, prefixes, VERSIONS[count % 5], (*head, payload)))
         ctx.exhaustive["prefix-x-message-cases"] = count
-        for i in range(ctx.pick(1500, 40000) // ctx.shard_count):
+        for i in range(ctx.pick(1500, 400000) // ctx.shard_count):
             prefixes = rng.choice(PREFIXES)
             arun(mapping_case(ctx, prefixes, rng.choice(VERSIONS), (*gens.random_wellformed(rng), gens.random_payload(rng))))
         # FIFO at hook level
@@ -469,7 +474,7 @@ def run(ctx) -> None:
                 if length <= 3:
                     client_script_case(ctx, [*script, "disconnect"])
         ctx.exhaustive["client-scripts"] = count
-        for i in range(ctx.pick(200, 6000) // ctx.shard_count):
+        for i in range(ctx.pick(200, 40000) // ctx.shard_count):
             script = []
             for _ in range(rng.randint(1, 30)):
                 roll = rng.random()
